@@ -21,6 +21,9 @@ func init() {
 
 func c17() []*Ob {
 	return []*Ob{
+		{Prop: "C17", ID: "C17.9", Engine: "PAIR(two sites)", Floor: 1,
+			Desc:  "LIDs and tokens of a partly repeated bulk belong to the same documents: Active.AppendIDs receives the collector's own filtered id column, or — if it receives SetMultiple's result — getIndexesOfIntercept walks the bulk front to back so that the filtered collector keeps bulk order",
+			Check: func(c *Ctx) { lidsFollowCollectorOrder(c) }},
 		{Prop: "C17", ID: "C17.7", Engine: "PAIR", Floor: 1,
 			Desc:  "a repeat that sits in the next fraction does not cost a hit: ids whose timestamp equals the border of the next, not yet searched fraction are not counted as final (the early-termination test of calcEnsuredIDsCount is non-strict and uses the border the list was sorted by — shared rule with C05.2); counted as final, the re-delivered document at the border comes back from the next fraction inside the reduced limit, the merge drops it as a repetition and the answer is one id short",
 			Check: func(c *Ctx) { sortKeyIsCutKey(c) }},
